@@ -55,7 +55,7 @@ def leaf(cls, m, *a, **k):
     return t
 
 
-def gen_leaf_args(r, cls, m, well_typed=False):
+def gen_leaf_args(r, cls, m, well_typed=False, spec_form=False):
     """Arguments for DSL method m of class cls (as a list of positional terms and dict of keyword terms)."""
     dtype = cls.endswith("DataType")
     length = cls.endswith("Length")
@@ -71,6 +71,9 @@ def gen_leaf_args(r, cls, m, well_typed=False):
         if length:
             return [r.choice([0, 1, 2, 3])], {}
         return [enc(gen_val(r, 1))], {}
+    if dtype and spec_form and m in ("less_than", "greater_than", "less_than_or_equal_to", "greater_than_or_equal_to",
+                                     "factor_of", "has_factor"):
+        return [T()], {}                                    # a type pre-processor compares with types
     if m in ("less_than", "greater_than", "less_than_or_equal_to", "greater_than_or_equal_to", "eq", "lt", "gt",
              "lte", "gte"):
         if well_typed or length:
